@@ -1,6 +1,7 @@
 import Driver.Util
 import Mtv.Client.Errors
 import Mtv.Client.ErrHeld
+import Mtv.Client.LifecycleSerial
 namespace Driver.C17
 open Mtv Mtv.Client Driver
 
@@ -119,8 +120,35 @@ def parMode (mode : String) : Bool :=
   mode.startsWith "par" &&
     (match (mode.drop 3).toNat? with | some k => 2 ≤ k && k ≤ 16 && toString k == (mode.drop 3).toString | none => false)
 
+/-- `c17.race`: what the old data centre does behind its PHONE_MIGRATE answer: `fin`, `rst` (optionally with a delay in
+microseconds), `half`, `keep` -/
+def raceCloseOk (t : String) : Bool :=
+  let num (r : String) : Bool := r.isEmpty || (r.length ≤ 7 && (match r.toNat? with | some n => n ≤ 1000000 && r.all Char.isDigit | none => false))
+  if t == "half" || t == "keep" then true
+  else if t.startsWith "fin" then num (t.drop 3).toString
+  else if t.startsWith "rst" then num (t.drop 3).toString
+  else false
+
+/-- `none` or `<point>:<µs>` -/
+def raceHoldOk (t : String) : Bool :=
+  t == "none" ||
+  (["read:", "write:", "recv:process:", "call:sent:"].any fun p =>
+    t.startsWith p && (t.drop p.length).toString.length ≤ 7 && (match (t.drop p.length).toString.toNat? with
+      | some n => n ≤ 1000000 && (t.drop p.length).toString.all Char.isDigit && !(t.drop p.length).toString.isEmpty
+      | none => false))
+
 /-- operations of property C17 -/
 def handle : List String → String
+  -- PHONE_MIGRATE_X answered together with a hang-up, `iters` runs on the real client: the serialised lifecycle model
+  -- (`Life.migrateWithHangupSettles`: both orders in which the reading routine and the caller take the lock) says the
+  -- client ends reading on one usable connection with one reading routine - in every run
+  | ["c17.race", close, hold, procs, iters] =>
+    match procs.toNat?, iters.toNat? with
+    | some p, some n =>
+      if !(raceCloseOk close && raceHoldOk hold) || p < 1 || p > 64 || n < 1 || n > 100000 ||
+          !(procs.all Char.isDigit) || procs.length > 7 || toString n != iters then "bad-op"
+      else if Life.migrateWithHangupSettles then s!"race ok={n}/{n}" else "race stranded"
+    | _, _ => "bad-op"
   -- identity of the errors handed out: what the callers HOLD after all the replies were converted (`heldAfter`: a
   -- new cell per conversion), what each conversion returned although earlier callers wrote into their errors
   -- (`returnedWith`); goroutines: every result has its own cell, so the interleaving does not enter
